@@ -95,8 +95,10 @@ impl<T> Array<T> {
         if axis.0 >= self.dimensions() || index >= self.shape[axis.0] {
             None
         } else {
+            // An empty array (some other axis has length zero) has no data to offset into; its views
+            // are empty as well
             let offset = index * self.strides[axis.0];
-            let data = &self.data[offset..];
+            let data = self.data.get(offset..).unwrap_or(&[]);
             let shape = self.shape.remove_axis(axis);
             let strides = self.strides.remove_axis(axis);
 
